@@ -84,6 +84,8 @@ def strnorm(x):
     if isinstance(x, (list,tuple)):
         t = type(x)
         if len(x)==3 and x[0]=="arr" and "String" in x[1]: return ("arr", x[1], [None if e==("s","") else e for e in x[2]])
+        if len(x)==2 and x[0]=="lst": return ("lst", [None if e==("s","") else strnorm(e) for e in x[1]])
+        if len(x)==2 and x[0]=="L": return ("L", [None if e==("s","") else strnorm(e) for e in x[1]])
         return t(strnorm(e) for e in x)
     return x
 def gen(r):
@@ -166,7 +168,7 @@ def run(seed, fmt):
     if fmt=="xmi": c0, c1 = strnorm(c0), strnorm(c1)
     if json.dumps(c0, sort_keys=True, default=str) != json.dumps(c1, sort_keys=True, default=str):
         return "CONTENT", (c0, c1, s)
-    if s != s2 and fmt=="json": return "RESER", (s, s2)
+    if fmt=="json" and json.dumps(json.loads(s)["%FEATURE_STRUCTURES"], sort_keys=True) != json.dumps(json.loads(s2)["%FEATURE_STRUCTURES"], sort_keys=True): return "RESER", (s, s2)
     if fmt=="xmi" and s.replace("></","/>") != s2.replace("></","/>"):
         import re
         a = re.sub(r"<(\w+)></\1>", r"<\1/>", s); b = re.sub(r"<(\w+)></\1>", r"<\1/>", s2)
